@@ -326,6 +326,10 @@ func parseUpstream(u string) ([]string, error) {
 		return nil, fmt.Errorf("port range [%s] is invalid", ports)
 	}
 
+	if pEnd > 65535 {
+		return nil, fmt.Errorf("port range [%s] ends above the highest port 65535", ports)
+	}
+
 	hosts := []string{}
 	for p := pIni; p <= pEnd; p++ {
 		hosts = append(hosts, fmt.Sprintf("%s:%d%s", us, p, ue))
